@@ -105,6 +105,13 @@ def judge(kind, stream, logs, T, C, S, P):
         exp.append(d)
     if [obs_event(e) for e in got] != exp:
         bad.append(('event-filter-wrong-subsequence', {'got_n': len(got), 'exp_n': len(exp)}))
+    if kind == 'v2' and not (len(C) or len(S)):
+        try:
+            gl2 = run_facade(blob, T, C, S, P, 'os_log_events')
+        except Exception as ex:
+            return bad + [('os_log_events-raised:' + type(ex).__name__, {'err': repr(ex)[:200], 'container': 'v2'})]
+        if gl2:
+            bad.append(('event-in-log-listing', {'container': 'v2', 'n': len(gl2)}))
     if kind == 'v3':
         try:
             gl = run_facade(blob, T, C, S, P, 'os_log_events')
